@@ -19,7 +19,7 @@ INFO = {
                    "(3) __getitem__/__setitem__ apply one index to every coefficient and keep keys; (4) no coefficient "
                    "reaches a boolean context on the numeric arm of the operator entry points. Not decided: numpy "
                    "broadcasting itself.",
-    "decided": ["C16.reflected", "C16.positions", "C16.index-uniform", "C16.no-truthiness"],
+    "decided": ["C16.reflected", "C16.positions", "C16.index-uniform", "C06.filter-sites", "C19.no-truthiness"],
     "not_decided": ["numpy's own broadcasting and element-wise arithmetic of the generated functions"],
     "assumptions": ["Python calls __rX__(right, left) only after left.__X__ is missing or returns NotImplemented"],
 }
@@ -27,7 +27,7 @@ INFO = {
 COMMUTATIVE_FOR_ALL_OPERAND_KINDS = {"add"}  # a + b = b + a also element-wise through list / callable forms
 
 
-def check_reflected(ctx, table, cls_qual):
+def check_reflected(ctx, table, cls_qual, repo=None):
     n = 0
     for fwd, refl in BINARY_DUNDERS.items():
         f = table.get(fwd)
@@ -42,7 +42,32 @@ def check_reflected(ctx, table, cls_qual):
                           f.node, facts_forward=f.sig())
             continue
         if r.kind != "op":
-            raise Unknown(construct, "reflected dunder has a Python body the surface resolver cannot classify", r.node)
+            # Python-bodied reflected dunder: compare operator-tree normal forms with  op(other, self)
+            if repo is None:
+                raise Unknown(construct, "reflected dunder has a Python body the surface resolver cannot classify", r.node)
+            from ..symenv import tree_interp
+            from ..optree import T
+            from ..absint import Raised, Unk
+            from ..astx import NoValue
+            x, o = T.var("x"), T.var("o")
+            it = tree_interp(repo, 3)
+            try:
+                got = it._method(x, refl, [o], {})
+                want = it.apply_op(f.op, [o, x], "MultiVector")
+            except NoValue as exc:
+                raise Unknown(construct, f"cannot evaluate the Python-bodied reflected dunder: {exc}", r.node)
+            except Raised as rz:
+                ctx.violation(construct, f"{refl} raises {rz.name} for a multivector-valued left operand", r.node)
+                continue
+            if isinstance(got, Unk) or not isinstance(got, T):
+                raise Unknown(construct, f"{refl} evaluates to {got!r}", r.node)
+            if got == want:
+                ctx.ok(construct, r.node, normal_form=repr(got))
+            else:
+                ctx.violation(construct, f"{refl}(self=x, other=o) denotes [{got!r}] but 'o {f.op} x' is [{want!r}]: with a "
+                                         f"list, tuple or callable of multivectors on the left the operands are combined in "
+                                         f"the wrong order", r.node, got=repr(got), expected=repr(want))
+            continue
         if r.op != f.op:
             ctx.violation(construct, f"{refl} resolves to operator {r.op!r} but {fwd} to {f.op!r}", r.node,
                           forward=f.sig(), reflected=r.sig())
@@ -64,15 +89,17 @@ def check_reflected(ctx, table, cls_qual):
     ("alias __rsub__ = sub", ("multivector", "    def __rsub__(self, other):\n        return self.algebra.sub(other, self)",
                                "    __rsub__ = sub")),
     ("__rmatmul__ keeps (self, other)", ("multivector", "return self.algebra.proj(other, self)", "return self.algebra.proj(self, other)")),
+    ("__rtruediv__ as self.inv() * other", ("multivector", "    def __rtruediv__(self, other):\n        return self.algebra.div(other, self)", "    def __rtruediv__(self, other):\n        return self.inv() * other")),
     ("__ror__ bound to op", ("multivector", "return self.algebra.ip(other, self)", "return self.algebra.op(other, self)")),
 ], rewrites=[
+    ("__rtruediv__ as other * self.inv()", ("multivector", "    def __rtruediv__(self, other):\n        return self.algebra.div(other, self)", "    def __rtruediv__(self, other):\n        return self.algebra.gp(other, self.inv())")),
     ("__radd__ as a proper reflected method", ("multivector", "    __radd__ = __add__ = add",
                                                "    __add__ = add\n\n    def __radd__(self, other):\n        return self.algebra.add(other, self)")),
 ])
 def reflected(ctx):
     """Every reflected dunder of MultiVector swaps its operands (SIB)."""
     table = class_surface(ctx.repo, "multivector.MultiVector")
-    check_reflected(ctx, table, "multivector.MultiVector")
+    check_reflected(ctx, table, "multivector.MultiVector", ctx.repo)
 
 
 @fixture_for("C16.reflected")
@@ -276,3 +303,115 @@ def positions(ctx):
     """_call_binary keeps 'left op right' operand positions through every unwrapping step (ORD + SIB)."""
     fn = ctx.func("operator_dict.OperatorDict._call_binary")
     check_positions(ctx, fn, "operator_dict.OperatorDict._call_binary")
+
+
+# --------------------------------------------------------------------------- index uniformity
+def _arr(name, log):
+    from ..absint import Obj
+    from ..symenv import Val
+    o = Obj("ndarray-element", {"fmt": name, "shape": (4, 5)})
+    o.getitem = lambda idx: Val(f"{name}[{idx!r}]")
+    o.methods["setitem"] = lambda idx, v: log.append(("set", name, idx, str(v)))
+    return o
+
+
+@rule("C16.index-uniform", props=["C16"], min_instances=8, mutants=[
+    ("ndarray assignment through an ellipsis", ("multivector", "            self.values()[(slice(None), *indices)] = values", "            self.values()[(..., *indices)] = values")),
+    ("getitem indexes only with the first index", ("multivector", "            return_values = values.__class__(value[item] for value in values)", "            return_values = values.__class__(value[item[0]] for value in values)")),
+    ("setitem pairs coefficients in reversed order", ("multivector", "            for self_values, other_value in zip(self.values(), values):", "            for self_values, other_value in zip(self.values(), reversed(values)):")),
+    ("setitem skips the key check", ("multivector", "            if self.keys() != values.keys():\n                raise ValueError('setitem with a multivector is only possible for equivalent MVs.')", "            if len(self.keys()) != len(values.keys()):\n                raise ValueError('setitem with a multivector is only possible for equivalent MVs.')")),
+])
+def index_uniform(ctx):
+    """Indexing / slice assignment apply one index to every coefficient, keep keys, and pair coefficient i with
+    coefficient i; assignment from a multivector requires equal key tuples."""
+    from ..absint import Obj, Unk
+    from ..astx import NoValue
+    from ..symenv import make_interp, rep_algebra, mv_obj, val_repr
+    repo = ctx.repo
+    M = "multivector.MultiVector"
+    alg = rep_algebra(3)
+    SL = slice(None)
+    # __getitem__
+    fn = ctx.func(f"{M}.__getitem__")
+    for label, item, want_idx in (("int", 3, (3,)), ("tuple", (1, 2), (1, 2)), ("slice", slice(0, 2), (slice(0, 2),))):
+        c = f"{M}.__getitem__#list-backed:{label}"
+        log = []
+        mv = mv_obj(alg, (4, 1, 6), [_arr("A0", log), _arr("A1", log), _arr("A2", log)])
+        try:
+            out = make_interp(repo).run(f"{M}.__getitem__", [mv, item])
+        except NoValue as exc:
+            raise Unknown(c, str(exc), fn)
+        ok = out[0] == "return" and isinstance(out[1], Obj) and tuple(out[1].attrs.get("_keys", ())) == (4, 1, 6) and \
+            [val_repr(v) if isinstance(v, Obj) else v for v in out[1].attrs.get("_values", [])] == [f"A{i}[{want_idx!r}]" for i in range(3)]
+        if ok:
+            ctx.ok(c, fn)
+        else:
+            got = (tuple(out[1].attrs.get("_keys", ())), [str(v) for v in out[1].attrs.get("_values", [])]) if isinstance(out[1], Obj) else out
+            ctx.violation(c, f"mv[{item!r}] on list-backed coefficients gives {got}; expected keys (4, 1, 6) and every "
+                             f"coefficient indexed with {want_idx!r}", fn)
+        c = f"{M}.__getitem__#ndarray-backed:{label}"
+        seen = {}
+        arr = Obj("ndarray", {"fmt": "ARR", "shape": (3, 4, 5)})
+        arr.getitem = lambda idx, seen=seen: (seen.update(idx=idx), Obj("ndarray", {"fmt": "SUB"}))[1]
+        mv = mv_obj(alg, (4, 1, 6), arr)
+        try:
+            out = make_interp(repo).run(f"{M}.__getitem__", [mv, item])
+        except NoValue as exc:
+            raise Unknown(c, str(exc), fn)
+        if out[0] == "return" and seen.get("idx") == (SL,) + want_idx and tuple(out[1].attrs.get("_keys", ())) == (4, 1, 6):
+            ctx.ok(c, fn)
+        else:
+            ctx.violation(c, f"mv[{item!r}] on ndarray-backed coefficients indexes the array with {seen.get('idx')!r}; expected "
+                             f"(slice(None), *index) = {(SL,) + want_idx!r} - the first axis enumerates the blades", fn)
+    # __setitem__
+    fn = ctx.func(f"{M}.__setitem__")
+    for label, indices, want_idx in (("int", 0, (0,)), ("tuple", (1, 2), (1, 2))):
+        c = f"{M}.__setitem__#list-backed:{label}"
+        log = []
+        mv = mv_obj(alg, (4, 1, 6), [_arr("A0", log), _arr("A1", log), _arr("A2", log)])
+        other = mv_obj(alg, (4, 1, 6), [Val_("B0"), Val_("B1"), Val_("B2")])
+        try:
+            out = make_interp(repo).run(f"{M}.__setitem__", [mv, indices, other])
+        except NoValue as exc:
+            raise Unknown(c, str(exc), fn)
+        want = [("set", f"A{i}", want_idx, f"B{i}") for i in range(3)]
+        if out[0] == "return" and log == want:
+            ctx.ok(c, fn)
+        else:
+            ctx.violation(c, f"mv[{indices!r}] = other performs {log}, expected coefficient i of other written to index "
+                             f"{want_idx!r} of coefficient i: {want}", fn)
+        c = f"{M}.__setitem__#ndarray-backed:{label}"
+        stored = {}
+        arr = Obj("ndarray", {"fmt": "ARR"})
+        arr.methods["setitem"] = lambda idx, v, stored=stored: stored.update(idx=idx, value=str(v))
+        mv = mv_obj(alg, (4, 1, 6), arr)
+        rhs = Obj("ndarray", {"fmt": "RHS"})
+        try:
+            out = make_interp(repo).run(f"{M}.__setitem__", [mv, indices, rhs])
+        except NoValue as exc:
+            raise Unknown(c, str(exc), fn)
+        if out[0] == "return" and stored.get("idx") == (SL,) + want_idx and stored.get("value") == "RHS":
+            ctx.ok(c, fn)
+        else:
+            ctx.violation(c, f"mv[{indices!r}] = array assigns through index {stored.get('idx')!r}; expected (slice(None), "
+                             f"*indices) = {(SL,) + want_idx!r}: with more than one trailing axis another slice of every "
+                             f"coefficient is overwritten", fn)
+    # assignment from a multivector with other keys must raise
+    c = f"{M}.__setitem__#different-keys"
+    log = []
+    mv = mv_obj(alg, (4, 1, 6), [_arr("A0", log), _arr("A1", log), _arr("A2", log)])
+    other = mv_obj(alg, (4, 6, 1), [Val_("B0"), Val_("B1"), Val_("B2")])
+    try:
+        out = make_interp(repo).run(f"{M}.__setitem__", [mv, 0, other])
+    except NoValue as exc:
+        raise Unknown(c, str(exc), fn)
+    if out[0] == "raise" and not log:
+        ctx.ok(c, fn, outcome=f"raises {out[1]}")
+    else:
+        ctx.violation(c, f"assigning a multivector with keys (4, 6, 1) into one with keys (4, 1, 6) performs {log} instead "
+                         f"of raising: coefficients are copied onto other blades", fn)
+
+
+def Val_(name):
+    from ..symenv import Val
+    return Val(name)
